@@ -187,10 +187,12 @@ def check(ctx):
         if ln.style == 'closure':
             _once(ctx, fn_name, label, ln)
             _args(ctx, fn_name, label, d, role, ln)
+            _intact(ctx, fn_name, label, ln)
     run.floor('C01.cover', 15)
     run.floor('C01.same', 10)
     run.floor('C01.once', 5)
     run.floor('C01.args', 6)
+    run.floor('C01.intact', 2)
 
     # ---- C01.place -------------------------------------------------------------------------------------------------------------
     b = prog.cls('adv_shell', 'Builder')
@@ -205,6 +207,31 @@ def check(ctx):
     ok = any(isinstance(n, ast.Call) and getattr(n.func, 'id', '') == 'create_constructor' for n in iter_own_nodes(build.node))
     run.add('C01.place', 'dznpy.adv_shell', 'Builder.build', 'create_constructor call', ok,
             'build() creates the constructor from create_constructor' if ok else 'build() does not call create_constructor')
+
+
+def _intact(ctx, fn_name: str, label: str, ln: Link):
+    """C01.intact: a link that hands the forwarded call to the dispatcher as an inner closure runs it after the outer lambda
+    has returned: the arguments arrive intact only when that inner closure owns copies of the IN formals."""
+    from .c02 import _capture
+    from ..links import match_close
+    body = ln.closure.body
+    for i, t in enumerate(body):
+        if t != ('p', '[') or i == 0:
+            continue
+        c = match_close(body, i)
+        if c < 0:
+            continue
+        k = c + 1
+        if k < len(body) and body[k][0] == 'alt':
+            k += 1
+        elif k < len(body) and body[k] == ('p', '('):
+            k = match_close(body, k) + 1
+        if k < len(body) and body[k] == ('p', '{'):
+            e = match_close(body, k)
+            inner = parse_closure(body[i:e + 1]) if e > 0 else None
+            if inner is not None and len(find_member_calls(inner.body)) == 1 and body[i - 1] in (('p', '('), ('p', ',')):
+                _capture(ctx, fn_name, label, inner, rule='C01.intact')
+                return
 
 
 def _event_tokens(ln: Link) -> List[Tuple[str, MemberPath]]:
